@@ -125,31 +125,36 @@ func (se *subscriptionEntry) prepareResponse(resp *requests.Response) *requests.
 	}
 }
 
+// Close asks Listen to stop. It is safe to call it any number of times, before, while and after
+// Listen runs.
 func (se *subscriptionEntry) Close() {
-	se.TryLock()
-	isClosed := se.isClosed
-	se.Unlock()
-	if isClosed {
+	se.Lock()
+	defer se.Unlock()
+	if se.isClosed {
 		return
 	}
-	se.closeCh <- struct{}{}
+	se.isClosed = true
+	close(se.closeCh)
 }
 
 func (se *subscriptionEntry) Listen(conn net.Conn) {
+	upstreamDone := false
 	defer func() {
+		// ask the queryer to close the upstream connection ...
 		se.queryerCloseCh <- struct{}{}
-		se.Lock()
-		defer se.Unlock()
-		close(se.queryerCloseCh)
-		close(se.closeCh)
-		close(se.respCh)
-		se.isClosed = true
+		// ... and wait until its reader has signalled the end of the stream (nil), so that it is
+		// never left blocked in a send to respCh
+		for !upstreamDone {
+			upstreamDone = <-se.respCh == nil
+		}
+		se.Close()
 	}()
 
 	for {
 		select {
 		case resp := <-se.respCh:
 			if resp == nil {
+				upstreamDone = true
 				return
 			}
 			resp = se.prepareResponse(resp)
